@@ -22,6 +22,9 @@ Gen/Enums.vos Gen/Enums.vok Gen/Enums.required_vos: Gen/Enums.v
 Gen/Layouts.vo Gen/Layouts.glob Gen/Layouts.v.beautified Gen/Layouts.required_vo: Gen/Layouts.v Base/Layout.vo
 Gen/Layouts.vio: Gen/Layouts.v Base/Layout.vio
 Gen/Layouts.vos Gen/Layouts.vok Gen/Layouts.required_vos: Gen/Layouts.v Base/Layout.vos
+Gen/XmlSites.vo Gen/XmlSites.glob Gen/XmlSites.v.beautified Gen/XmlSites.required_vo: Gen/XmlSites.v Model/XmlEntry.vo
+Gen/XmlSites.vio: Gen/XmlSites.v Model/XmlEntry.vio
+Gen/XmlSites.vos Gen/XmlSites.vok Gen/XmlSites.required_vos: Gen/XmlSites.v Model/XmlEntry.vos
 Model/Text.vo Model/Text.glob Model/Text.v.beautified Model/Text.required_vo: Model/Text.v 
 Model/Text.vio: Model/Text.v 
 Model/Text.vos Model/Text.vok Model/Text.required_vos: Model/Text.v 
@@ -34,6 +37,12 @@ Model/Vmx.vos Model/Vmx.vok Model/Vmx.required_vos: Model/Vmx.v Model/Text.vos M
 Model/XmlDesc.vo Model/XmlDesc.glob Model/XmlDesc.v.beautified Model/XmlDesc.required_vo: Model/XmlDesc.v Base/Plan.vo Model/Text.vo Model/XmlTree.vo Gen/DescTables.vo
 Model/XmlDesc.vio: Model/XmlDesc.v Base/Plan.vio Model/Text.vio Model/XmlTree.vio Gen/DescTables.vio
 Model/XmlDesc.vos Model/XmlDesc.vok Model/XmlDesc.required_vos: Model/XmlDesc.v Base/Plan.vos Model/Text.vos Model/XmlTree.vos Gen/DescTables.vos
+Model/XmlEntry.vo Model/XmlEntry.glob Model/XmlEntry.v.beautified Model/XmlEntry.required_vo: Model/XmlEntry.v 
+Model/XmlEntry.vio: Model/XmlEntry.v 
+Model/XmlEntry.vos Model/XmlEntry.vok Model/XmlEntry.required_vos: Model/XmlEntry.v 
+Model/XmlPredict.vo Model/XmlPredict.glob Model/XmlPredict.v.beautified Model/XmlPredict.required_vo: Model/XmlPredict.v Model/XmlEntry.vo Gen/XmlSites.vo
+Model/XmlPredict.vio: Model/XmlPredict.v Model/XmlEntry.vio Gen/XmlSites.vio
+Model/XmlPredict.vos Model/XmlPredict.vok Model/XmlPredict.required_vos: Model/XmlPredict.v Model/XmlEntry.vos Gen/XmlSites.vos
 Model/XmlTree.vo Model/XmlTree.glob Model/XmlTree.v.beautified Model/XmlTree.required_vo: Model/XmlTree.v Model/Text.vo
 Model/XmlTree.vio: Model/XmlTree.v Model/Text.vio
 Model/XmlTree.vos Model/XmlTree.vok Model/XmlTree.required_vos: Model/XmlTree.v Model/Text.vos
@@ -49,9 +58,15 @@ Proofs/Vmx.vos Proofs/Vmx.vok Proofs/Vmx.required_vos: Proofs/Vmx.v Model/Text.v
 Proofs/XmlDesc.vo Proofs/XmlDesc.glob Proofs/XmlDesc.v.beautified Proofs/XmlDesc.required_vo: Proofs/XmlDesc.v Base/Plan.vo Model/Text.vo Model/XmlTree.vo Gen/DescTables.vo Model/XmlDesc.vo Proofs/Text.vo
 Proofs/XmlDesc.vio: Proofs/XmlDesc.v Base/Plan.vio Model/Text.vio Model/XmlTree.vio Gen/DescTables.vio Model/XmlDesc.vio Proofs/Text.vio
 Proofs/XmlDesc.vos Proofs/XmlDesc.vok Proofs/XmlDesc.required_vos: Proofs/XmlDesc.v Base/Plan.vos Model/Text.vos Model/XmlTree.vos Gen/DescTables.vos Model/XmlDesc.vos Proofs/Text.vos
+Proofs/XmlEntry.vo Proofs/XmlEntry.glob Proofs/XmlEntry.v.beautified Proofs/XmlEntry.required_vo: Proofs/XmlEntry.v Model/XmlEntry.vo Gen/XmlSites.vo
+Proofs/XmlEntry.vio: Proofs/XmlEntry.v Model/XmlEntry.vio Gen/XmlSites.vio
+Proofs/XmlEntry.vos Proofs/XmlEntry.vok Proofs/XmlEntry.required_vos: Proofs/XmlEntry.v Model/XmlEntry.vos Gen/XmlSites.vos
 Props/C04.vo Props/C04.glob Props/C04.v.beautified Props/C04.required_vo: Props/C04.v Base/Plan.vo Base/Table.vo Model/Vhd.vo Proofs/Vhd.vo
 Props/C04.vio: Props/C04.v Base/Plan.vio Base/Table.vio Model/Vhd.vio Proofs/Vhd.vio
 Props/C04.vos Props/C04.vok Props/C04.required_vos: Props/C04.v Base/Plan.vos Base/Table.vos Model/Vhd.vos Proofs/Vhd.vos
 Props/C18.vo Props/C18.glob Props/C18.v.beautified Props/C18.required_vo: Props/C18.v Base/Plan.vo Model/Text.vo Model/XmlTree.vo Gen/DescTables.vo Model/Vmx.vo Model/XmlDesc.vo Proofs/Text.vo Proofs/Vmx.vo Proofs/XmlDesc.vo
 Props/C18.vio: Props/C18.v Base/Plan.vio Model/Text.vio Model/XmlTree.vio Gen/DescTables.vio Model/Vmx.vio Model/XmlDesc.vio Proofs/Text.vio Proofs/Vmx.vio Proofs/XmlDesc.vio
 Props/C18.vos Props/C18.vok Props/C18.required_vos: Props/C18.v Base/Plan.vos Model/Text.vos Model/XmlTree.vos Gen/DescTables.vos Model/Vmx.vos Model/XmlDesc.vos Proofs/Text.vos Proofs/Vmx.vos Proofs/XmlDesc.vos
+Props/C19.vo Props/C19.glob Props/C19.v.beautified Props/C19.required_vo: Props/C19.v Model/XmlEntry.vo Gen/XmlSites.vo Model/XmlPredict.vo Proofs/XmlEntry.vo
+Props/C19.vio: Props/C19.v Model/XmlEntry.vio Gen/XmlSites.vio Model/XmlPredict.vio Proofs/XmlEntry.vio
+Props/C19.vos Props/C19.vok Props/C19.required_vos: Props/C19.v Model/XmlEntry.vos Gen/XmlSites.vos Model/XmlPredict.vos Proofs/XmlEntry.vos
